@@ -32,9 +32,10 @@ type F struct {
 }
 
 type HOp struct {
-	Op    string `json:"op"` // sync compact snapshot cascade l0ret probe
+	Op    string `json:"op"` // sync compact snapshot cascade l0ret probe racesnap (Arg = ms between starting Sync and calling Snapshot)
 	Arg   int    `json:"arg,omitempty"`
 	Sleep int    `json:"sleep,omitempty"` // ms slept before the op
+	Size  int    `json:"size,omitempty"`  // racesnap: KB of the row whose sync the snapshot races with
 }
 
 type HCase struct {
@@ -124,6 +125,11 @@ type hist struct {
 	t     map[int]int // ledger: txid -> replication time (ms - base)
 	maxTx int
 	seen  map[[3]int]bool
+	// app-level ledger: row id -> lowest TXID that can contain it (TXID after the previous sync + 1)
+	rowLo   map[int]int
+	lastPos int
+	hot     map[int]bool // TXIDs produced while a snapshot raced with the sync: always restore-probed
+	tswf    string       // first structural violation seen (reported after the direct oracle had its chance)
 }
 
 func openHist(tmp string, h HCase) (*hist, error) {
@@ -131,7 +137,7 @@ func openHist(tmp string, h HCase) (*hist, error) {
 	if err != nil {
 		return nil, err
 	}
-	x := &hist{dir: dir, base: time.Now().UnixMilli() - 1000, t: map[int]int{}, seen: map[[3]int]bool{}}
+	x := &hist{dir: dir, base: time.Now().UnixMilli() - 1000, t: map[int]int{}, seen: map[[3]int]bool{}, rowLo: map[int]int{}, hot: map[int]bool{}}
 	path := filepath.Join(dir, "db")
 	x.sqldb, err = sql.Open("sqlite", path)
 	if err != nil {
@@ -200,8 +206,10 @@ func (x *hist) headerTs(f F) (int, error) {
 	return int(dec.Header().Timestamp - x.base), nil
 }
 
-// record notes new files: ledger entries from new L0 files, header-vs-mtime for all.
-func (x *hist) record(res *hx.Result) (string, string) {
+// record notes new files (ledger entries from new L0 files, header-vs-mtime for all) and runs the
+// structural oracle on the whole replica state: no file may be stamped earlier than the
+// replication time (L0 header timestamp, from the ledger) of any TXID it contains.
+func (x *hist) record(res *hx.Result, step int) {
 	fs, err := x.listing()
 	if err != nil {
 		hx.Fatal(err)
@@ -237,7 +245,50 @@ func (x *hist) record(res *hx.Result) (string, string) {
 			}
 		}
 	}
-	return "", ""
+	if x.tswf == "" {
+		x.tswf = x.structural(fs, step)
+	}
+	if res != nil {
+		res.Count("structural-checks")
+	}
+}
+
+// structural: every file's CreatedAt >= replication time of every TXID it contains.
+func (x *hist) structural(fs []F, step int) string {
+	for _, f := range fs {
+		for n := f.Min; n <= f.Max; n++ {
+			if tn, ok := x.t[n]; ok && tn > f.Cr {
+				return fmt.Sprintf("step %d: replica file %d:%d:%d is stamped %d, earlier than TXID %d it contains (L0 file stamped %d)", step, f.L, f.Min, f.Max, f.Cr, n, tn)
+			}
+		}
+	}
+	return ""
+}
+
+// maxRow opens a restored database image and returns the highest app row id in it (0 = none).
+func (x *hist) maxRow(img []byte) (int, error) {
+	p := filepath.Join(x.dir, "content.db")
+	for _, sfx := range []string{"", "-wal", "-shm"} {
+		os.Remove(p + sfx)
+	}
+	if err := os.WriteFile(p, img, 0o644); err != nil {
+		return 0, err
+	}
+	d, err := sql.Open("sqlite", p)
+	if err != nil {
+		return 0, err
+	}
+	defer func() {
+		d.Close()
+		for _, sfx := range []string{"", "-wal", "-shm"} {
+			os.Remove(p + sfx)
+		}
+	}()
+	var m sql.NullInt64
+	if err := d.QueryRow("SELECT max(id) FROM t").Scan(&m); err != nil {
+		return 0, err
+	}
+	return int(m.Int64), nil
 }
 
 func canonPlan(infos []*ltx.FileInfo, err error) (string, int) {
@@ -315,18 +366,10 @@ func (x *hist) probe(drv *hx.Driver, res *hx.Result, rnd *hx.Rand, step int) (ki
 			res.Count(k)
 		}
 	}
-	// TsWF on the real files (what the filter actually sees is the mtime)
-	for _, f := range fs {
-		for n := f.Min; n <= f.Max; n++ {
-			if tn, ok := x.t[n]; ok && tn > f.Cr {
-				return "violation", "C15/tswf-broken", fmt.Sprintf("step %d: replica file %d:%d:%d has CreatedAt %d, older than TXID %d it contains (replicated at %d)", step, f.L, f.Min, f.Max, f.Cr, n, tn)
-			}
-		}
-	}
 	listing := fmtFiles(fs, true)
 	if lw, err := drv.Ask("tswf LED=" + x.ledgerArg() + " F=" + listing); err != nil {
 		hx.Fatal(err)
-	} else if lw != "ok 1" && lw != "-" {
+	} else if lw != "-" && (lw == "ok 1") != (x.structural(fs, step) == "") {
 		return "disagreement", "C15/tswf-lean-vs-go", fmt.Sprintf("step %d: Lean tsWFB says %q on a listing the Go check accepts", step, lw)
 	}
 	allL0 := true
@@ -374,7 +417,7 @@ func (x *hist) probe(drv *hx.Driver, res *hx.Result, rnd *hx.Rand, step int) (ki
 	}
 	sort.Ints(Ts)
 	prevE, prevT := 0, 0
-	restoreBudget := 5
+	restoreBudget, hotBudget := 5, 9
 	for _, T := range Ts {
 		ts := time.UnixMilli(x.base + int64(T)).UTC()
 		infos, perr := litestream.CalcRestorePlan(ctx, x.fc, 0, ts, quiet)
@@ -421,11 +464,31 @@ func (x *hist) probe(drv *hx.Driver, res *hx.Result, rnd *hx.Rand, step int) (ki
 			return "disagreement", "C15/model-vs-impl-plan", fmt.Sprintf("step %d: impl=%q model=%q | %s", step, impl, model, line)
 		}
 		// Restore(Timestamp=T) == Restore(TXID=e)
-		if perr == nil && restoreBudget > 0 && (e != prevE || rnd.Chance(10)) && rnd.Chance(50) {
-			restoreBudget--
+		hotT := false
+		for n := range x.hot {
+			if tn, ok := x.t[n]; ok && (T == tn || T == tn-1 || T == tn+1) {
+				hotT = true
+			}
+		}
+		if perr == nil && ((restoreBudget > 0 && (e != prevE || rnd.Chance(10)) && rnd.Chance(50)) || (hotT && hotBudget > 0)) {
+			if hotT {
+				hotBudget--
+			} else {
+				restoreBudget--
+			}
 			got, gerr := x.restore("ts.db", 0, T)
 			if gerr != nil {
 				return "violation", "C15/restore-fails", fmt.Sprintf("step %d: plan for T=%d is %s but Restore(Timestamp) fails: %v", step, T, impl, gerr)
+			}
+			// content oracle: the newest app row in the restored database must not belong to a
+			// transaction whose L0 file is stamped at or after T
+			if m, merr := x.maxRow(got); merr != nil {
+				return "violation", "C15/restore-unreadable", fmt.Sprintf("step %d: Restore(Timestamp=%d) output cannot be queried: %v", step, T, merr)
+			} else if lo, ok := x.rowLo[m]; ok {
+				count("restore-content-checked")
+				if tn, ok := x.t[lo]; ok && tn >= T {
+					return "violation", "C15/future-row", fmt.Sprintf("step %d: Restore(Timestamp=%d) returns app row %d, written in TXID >= %d whose L0 file is stamped %d (>= T); plan %s; listing %s", step, T, m, lo, tn, impl, listing)
+				}
 			}
 			want, werr := x.restore("tx.db", e, -1)
 			if werr != nil {
@@ -438,6 +501,9 @@ func (x *hist) probe(drv *hx.Driver, res *hx.Result, rnd *hx.Rand, step int) (ki
 			}
 		}
 		prevE, prevT = e, T
+	}
+	if w := x.structural(fs, step); w != "" {
+		return "violation", "C15/tswf-broken", w
 	}
 	return "", "", ""
 }
@@ -455,6 +521,21 @@ func runHistory(tmp string, drv *hx.Driver, h HCase, res *hx.Result) (kind, sig,
 			res.Count(k)
 		}
 	}
+	insert := func(n int) {
+		x.rows++
+		if x.rows%6 == 0 {
+			x.sqldb.Exec("DELETE FROM t WHERE id = (SELECT min(id) FROM t)")
+		}
+		if _, err := x.sqldb.Exec("INSERT INTO t(id, v) VALUES(?, ?)", x.rows, bytes.Repeat([]byte{byte(x.rows)}, n)); err != nil {
+			hx.Fatal(err)
+		}
+		x.rowLo[x.rows] = x.lastPos + 1
+	}
+	notePos := func() {
+		if pos, err := x.db.Pos(); err == nil {
+			x.lastPos = int(pos.TXID)
+		}
+	}
 	for i, op := range h.Ops {
 		if op.Sleep > 0 {
 			time.Sleep(time.Duration(op.Sleep) * time.Millisecond)
@@ -462,13 +543,7 @@ func runHistory(tmp string, drv *hx.Driver, h HCase, res *hx.Result) (kind, sig,
 		switch op.Op {
 		case "sync":
 			for j := 0; j < op.Arg; j++ {
-				x.rows++
-				if x.rows%6 == 0 {
-					x.sqldb.Exec("DELETE FROM t WHERE id = (SELECT min(id) FROM t)")
-				}
-				if _, err := x.sqldb.Exec("INSERT INTO t(v) VALUES(?)", bytes.Repeat([]byte{byte(x.rows)}, 100+x.rows%5*400)); err != nil {
-					hx.Fatal(err)
-				}
+				insert(100 + x.rows%5*400)
 			}
 			if err := x.db.Sync(ctx); err != nil {
 				return "", "", ""
@@ -476,7 +551,45 @@ func runHistory(tmp string, drv *hx.Driver, h HCase, res *hx.Result) (kind, sig,
 			if err := x.db.Replica.Sync(ctx); err != nil {
 				return "", "", ""
 			}
+			notePos()
 			count("op-sync")
+		case "racesnap":
+			// DB.Snapshot() called while a DB.Sync producing a new TXID holds / queues for the executor
+			p0 := x.lastPos
+			x.sqldb.Exec("DELETE FROM t WHERE length(v) > 100000")
+			insert(op.Size * 1024)
+			done := make(chan error, 1)
+			started := make(chan struct{})
+			go func() {
+				close(started)
+				done <- x.db.Sync(ctx)
+			}()
+			<-started
+			if op.Arg > 0 {
+				time.Sleep(time.Duration(op.Arg) * time.Millisecond)
+			}
+			snap, serr := x.db.Snapshot(ctx)
+			if err := <-done; err != nil {
+				return "", "", ""
+			}
+			if err := x.db.Sync(ctx); err != nil { // in case the snapshot won the lock
+				return "", "", ""
+			}
+			if err := x.db.Replica.Sync(ctx); err != nil {
+				return "", "", ""
+			}
+			notePos()
+			for n := p0 + 1; n <= x.lastPos; n++ {
+				x.hot[n] = true
+			}
+			switch {
+			case serr != nil:
+				count("race-snapshot-error")
+			case int(snap.MaxTXID) > p0:
+				count("race-snapshot-waited-for-sync")
+			default:
+				count("race-snapshot-won-lock")
+			}
 		case "compact":
 			if _, err := x.db.Compact(ctx, op.Arg); err == nil {
 				count("op-compact")
@@ -494,16 +607,41 @@ func runHistory(tmp string, drv *hx.Driver, h HCase, res *hx.Result) (kind, sig,
 				count("op-l0ret")
 			}
 		case "probe":
-			x.record(res)
+			x.record(res, i)
 			if k, s, w := x.probe(drv, res, rnd, i); k != "" {
 				return k, s, w
 			}
 			count("op-probe")
 			continue
 		}
-		x.record(res)
+		x.record(res, i)
+		if x.tswf != "" {
+			// a file stamped earlier than a transaction it contains: let the direct property
+			// oracle name a failing T first, otherwise report the structural violation itself
+			if k, s, w := x.probe(drv, res, rnd, i); k != "" {
+				return k, s, w
+			}
+			return "violation", "C15/tswf-broken", x.tswf
+		}
 	}
 	return "", "", ""
+}
+
+// genRace: histories whose snapshots are requested while a sync of a multi-hundred-page commit is in flight.
+func genRace(rnd *hx.Rand, n int) HCase {
+	h := HCase{LV: 1 + rnd.Intn(2), Retention: false, ProbeSeed: rnd.Uint64()}
+	h.Ops = append(h.Ops, HOp{Op: "sync", Arg: 1, Sleep: 2})
+	for i := 0; i < n; i++ {
+		h.Ops = append(h.Ops, HOp{Op: "racesnap", Arg: rnd.Intn(4), Size: 1024 + rnd.Intn(3)*1024, Sleep: 3})
+		switch rnd.Intn(5) {
+		case 0:
+			h.Ops = append(h.Ops, HOp{Op: "sync", Arg: 1, Sleep: 2})
+		case 1:
+			h.Ops = append(h.Ops, HOp{Op: "compact", Arg: 1, Sleep: 2})
+		}
+	}
+	h.Ops = append(h.Ops, HOp{Op: "probe"})
+	return h
 }
 
 func shrinkHistory(h HCase, fails func(HCase) bool) HCase {
@@ -551,7 +689,10 @@ func main() {
 		if err := json.Unmarshal(b, &w); err != nil || w.Replay.History == nil {
 			hx.Fatal(fmt.Errorf("bad replay file"))
 		}
-		k, s, what := runHistory(tmp, drv, *w.Replay.History, nil)
+		var k, s, what string
+		for try := 0; try < 5 && k == ""; try++ { // racing schedules are not deterministic: a few attempts
+			k, s, what = runHistory(tmp, drv, *w.Replay.History, nil)
+		}
 		fmt.Printf("kind=%q signature=%q\n%s\n", k, s, what)
 		if k != "" {
 			os.RemoveAll(tmp)
@@ -562,9 +703,9 @@ func main() {
 
 	res := hx.NewResult(o, "c15")
 	res.Rule = "one case = one (real listing, timestamp T) probe of CalcRestorePlan; counts as non-trivial when a plan is returned (distinct by listing and T)"
-	nHist, hLen := 40, 28
+	nHist, hLen, nRace, rLen := 28, 28, 6, 4
 	if o.Tier == "thorough" {
-		nHist, hLen = 300, 45
+		nHist, hLen, nRace, rLen = 300, 45, 40, 6
 	}
 	nViol, nDis := 0, 0
 	report := func(kind, sig, what string, h HCase) {
@@ -600,8 +741,15 @@ func main() {
 		}
 	}
 	rnd := hx.NewRand(o.Seed)
-	for i := 0; i < nHist && nViol < 3; i++ {
-		h := genHistory(rnd, hLen)
+	rr := rnd.Fork()
+	for i := 0; i < nHist+nRace && nViol < 3; i++ {
+		var h HCase
+		if i < nRace {
+			h = genRace(rr, rLen)
+			res.Count("history-race")
+		} else {
+			h = genHistory(rnd, hLen)
+		}
 		k, s, what := runHistory(tmp, drv, h, res)
 		res.Count("history")
 		if h.Retention {
@@ -616,15 +764,19 @@ func main() {
 			continue
 		}
 		h = shrinkHistory(h, func(d HCase) bool {
-			k2, s2, _ := runHistory(tmp, drv, d, nil)
-			return k2 == k && s2 == s
+			for try := 0; try < 2; try++ { // schedules with goroutines may need a second attempt
+				if k2, s2, _ := runHistory(tmp, drv, d, nil); k2 == k && s2 == s {
+					return true
+				}
+			}
+			return false
 		})
 		if _, _, w2 := runHistory(tmp, drv, h, nil); w2 != "" {
 			what = w2
 		}
 		report(k, s, what, h)
 	}
-	res.Notes = append(res.Notes, "real SQLite+DB+Store histories (sync/compact/snapshot, with and without retention at 1 ms thresholds); ledger = header timestamp of each L0 file; probes at t-1,t,t+1 and midpoints of every recorded header time and mtime")
+	res.Notes = append(res.Notes, "real SQLite+DB+Store histories (sync/compact/snapshot, with and without retention at 1 ms thresholds); ledger = header timestamp of each L0 file; race stream: DB.Snapshot() called 0-3 ms after a DB.Sync of a 1-3 MB commit was started in another goroutine; structural oracle (file stamped >= every contained TXID's L0 stamp) after every operation; content oracle (newest app row of Restore(Timestamp=T) belongs to a TXID stamped < T); probes at t-1,t,t+1 and midpoints of every recorded header time and mtime")
 	if err := res.Write(o.Out); err != nil {
 		hx.Fatal(err)
 	}
